@@ -119,7 +119,20 @@ func (propC08) Gen(seed uint64, tier string, idx int) *Plan2 {
 		// background goroutines under request-scoped contexts). Asserted: it never stays shut for ever.
 		p.Params["via"] = "lifecycle"
 		for l := 6 + r.n(40); l > 0; l-- {
-			p.Tasks = append(p.Tasks[:0], append(firstOr(p.Tasks), Op{K: []string{"F", "F", "S", "C", "C", "W<", "W>"}[r.n(7)]}))
+			p.Tasks = append(p.Tasks[:0], append(firstOr(p.Tasks), Op{K: []string{"F", "F", "F", "S", "C", "C", "W<", "W>", "W5"}[r.n(9)]}))
+		}
+		if r.n(2) == 0 {
+			p.Params["started"] = true // Start(): the unifier's own periodic clean-up runs, as it does in the registry
+			p.Params["empty"] = r.n(2) == 0
+			if r.n(2) == 0 {
+				// trip the breaker right before a housekeeping tick and ask right after it, inside the open period
+				tail := []Op{{K: "W5"}}
+				for k := 0; k < 6; k++ {
+					tail = append(tail, Op{K: "F"})
+				}
+				tail = append(tail, Op{K: "W<"}, Op{K: "W<"}, Op{K: "S"})
+				p.Tasks[0] = append(p.Tasks[0], tail...)
+			}
 		}
 		p.Sub = kind + "/lifecycle"
 	case mode == 2:
@@ -594,7 +607,8 @@ func (propC08) Exec(p *Plan2, res *Result2) {
 // once the endpoint works again (every call succeeds), a caller is admitted within a few open periods.
 func c08Lifecycle(p *Plan2, res *Result2) {
 	cfg := unifier.DefaultConfig()
-	cfg.EnableBackgroundCleanup = false
+	started, _ := p.Params["started"].(bool)
+	cfg.EnableBackgroundCleanup = started
 	cfg.CircuitBreaker = unifier.CircuitBreakerConfig{Enabled: true, FailureThreshold: p.Int("T", 3), SuccessThreshold: p.Int("ST", 1), HalfOpenRequests: p.Int("N", 1), OpenDuration: time.Duration(p.Int("Dms", 1000)) * time.Millisecond}
 	cfg.MaxConsecutiveFailures = cfg.CircuitBreaker.FailureThreshold + 1
 	u := unifier.NewLifecycleUnifier(cfg, quiet())
@@ -608,18 +622,56 @@ func c08Lifecycle(p *Plan2, res *Result2) {
 	ur, _ := url.Parse("http://b1:8000")
 	ep := &domain.Endpoint{Name: "b1", URL: ur, URLString: ur.String(), Type: "ollama", Status: domain.StatusHealthy}
 	models := []*domain.ModelInfo{{Name: "m1"}}
+	if empty, _ := p.Params["empty"].(bool); empty {
+		models = nil // an endpoint whose listing is empty: it contributes nothing to the catalogue
+	}
 	start := time.Now()
 	now := func() time.Duration { return time.Since(start) }
 	D := cfg.CircuitBreaker.OpenDuration
+	if started {
+		if st, ok := u.(interface {
+			Start(ctx context.Context) error
+			Stop(ctx context.Context) error
+		}); ok {
+			_ = st.Start(context.Background())
+			defer func() { _ = st.Stop(context.Background()) }()
+		}
+	}
+	failsInARow, lastFail := 0, time.Duration(0) // failures since the last call of any kind
+	T := cfg.CircuitBreaker.FailureThreshold
 	call := func(ctx context.Context) (admitted bool, err error) {
 		_, err = u.UnifyModels(ctx, models, ep)
-		return err == nil || !strings.Contains(err.Error(), "circuit breaker open"), err
+		admitted = err == nil || !strings.Contains(err.Error(), "circuit breaker open")
+		// hold clause: the threshold was reached by failures with nothing in between, and the open period
+		// counted from the last of them has not run out: nobody may be let through, whatever housekeeping ran
+		if admitted && failsInARow >= T && now()-lastFail < D-c08Eps {
+			res.add("C08", "C08/unifier/admitted-but-must-refuse", "%d failures in a row, the last %s ago (open for %s), and a caller was admitted: %v", failsInARow, now()-lastFail, D, res.Hist)
+		}
+		failsInARow = 0
+		return admitted, err
 	}
+	lastTick := time.Duration(0)
 	for i, op := range firstOr(p.Tasks) {
+		if tick := now() / (5 * time.Minute); tick != lastTick {
+			lastTick = tick
+			if started && failsInARow < T {
+				failsInARow = 0 // a housekeeping tick went by: a breaker that has not tripped may forget its partial count (see idle())
+			}
+		}
 		switch op.K {
 		case "F":
 			lu.RecordEndpointFailure(ep.URLString, fmt.Errorf("scripted failure"))
+			failsInARow++
+			lastFail = now()
 			res.Hist = append(res.Hist, fmt.Sprintf("%d t=%s failure", i, now()))
+		case "W5":
+			// until a little before the next 5-minute housekeeping tick (ticks count from Start at t=0)
+			d := 5*time.Minute - now()%(5*time.Minute) - D/2
+			if d <= 0 {
+				d += 5 * time.Minute
+			}
+			time.Sleep(d)
+			res.Hist = append(res.Hist, fmt.Sprintf("%d t=%s waited W5", i, now()))
 		case "S":
 			adm, err := call(context.Background())
 			res.Hist = append(res.Hist, fmt.Sprintf("%d t=%s unify -> admitted=%v err=%v", i, now(), adm, err))
